@@ -13,9 +13,9 @@ func init() { engines["C10"] = runFault }
 func runFault() *ShardResult {
 	res := newResult()
 	thorough := *fTier == "thorough"
-	maxLen := 2
+	maxLen := 3
 	if thorough {
-		maxLen = 3
+		maxLen = 4
 	}
 	deadline := time.Now().Add(*fBudget)
 	cfgs := []core.Config{{SegSize: 128}, {SegSize: 64}}
